@@ -60,6 +60,7 @@ func checkC08(c *Ctx) {
 	c08Alias(c, p, ms)
 	c08Merge(c, p, ms)
 	c08Wide(c, p, ms)
+	c08FillAll(c, p, ms)
 	c08Width(c, p, "C08-R7")
 }
 
@@ -766,4 +767,41 @@ func everyCycleThrough(site, must *ssa.BasicBlock) bool {
 		stack = append(stack, b.Succs...)
 	}
 	return true
+}
+
+// c08FillAll: Fill stores rune, (empty) combining list, style and width into every
+// cell; none of the four stores may be skipped for a cell on account of what it holds
+// (a cell that matches in rune and style may still carry combining runes).
+func c08FillAll(c *Ctx, p *Prog, ms map[string]*ssa.Function) {
+	fn := ms["Fill"]
+	if fn == nil {
+		c.Undecided("C08-R2", "Fill", "-", "not found")
+		return
+	}
+	var hdr *ssa.BasicBlock
+	for h := range loopsOf(fn) {
+		for _, in := range h.Instrs {
+			if bo, ok := in.(*ssa.BinOp); ok && isRangeIndex(bo) {
+				hdr = h
+			}
+		}
+	}
+	if hdr == nil {
+		c.Undecided("C08-R2", "Fill:loop", p.pos(fn.Pos()), "loop over the cells not found")
+		return
+	}
+	bad := ""
+	for _, f := range []string{"currMain", "currComb", "currStyle", "width"} {
+		sts := storesTo(fn, cellOwner, f)
+		ok := false
+		for _, st := range sts {
+			if everyCycleThrough(hdr, st.Block()) {
+				ok = true
+			}
+		}
+		if !ok {
+			bad += f + " is not stored for every cell; "
+		}
+	}
+	c.Check(bad == "", "C08-R2", "Fill:stores-every-cell", p.pos(fn.Pos()), "every pass of the loop over the cells stores rune, combining list, style and width "+bad)
 }
